@@ -425,11 +425,31 @@ func (c *Ctx) equalOrComplementSiblings() {
 			if !ok {
 				return true
 			}
-			be, ok := unparen(is.Cond).(*ast.BinaryExpr)
-			if !ok || !strings.Contains(c.canon(info, be, nil), "HashCode()") {
+			if !strings.Contains(c.canon(info, is.Cond, nil), "HashCode()") {
 				return true
 			}
-			c.Check(be.Op == token.NEQ && is.Else == nil && c.leaves(info, is.Body.List), "SIBLING", "tree.Edge."+n+"/hash-pretest", is.Pos(), "differing hashes only reject", "hash pre-test in "+n+" is not of the form `if h1 != h2 { reject }`").Clause = clause
+			// the condition is a disjunction; the disjunct comparing the two hash codes must be `!=`
+			var disj []ast.Expr
+			var split func(e ast.Expr)
+			split = func(e ast.Expr) {
+				if b, ok := unparen(e).(*ast.BinaryExpr); ok && b.Op == token.LOR {
+					split(b.X)
+					split(b.Y)
+					return
+				}
+				disj = append(disj, unparen(e))
+			}
+			split(is.Cond)
+			good := is.Else == nil && c.leaves(info, is.Body.List)
+			for _, d := range disj {
+				if !strings.Contains(c.canon(info, d, nil), "HashCode()") {
+					continue
+				}
+				if b, ok := d.(*ast.BinaryExpr); !ok || b.Op != token.NEQ {
+					good = false
+				}
+			}
+			c.Check(good, "SIBLING", "tree.Edge."+n+"/hash-pretest", is.Pos(), "differing hashes only reject", "hash pre-test in "+n+" is not of the form `if ... || h1 != h2 { reject }`").Clause = clause
 			return true
 		})
 	}
